@@ -7,31 +7,42 @@ CHECK = {
     "level": "exploration",
     "engine": "E3",
     "technique": "bounded-exhaustive enumeration of the run-mode x optional-component (with value variants) x "
-                 "thread-count x grid-layout lattice by covering arrays (deterministic greedy; strength 2 in the "
+                 "thread-count x grid-layout x capacity-regime x snapshot-field-selection lattice by covering arrays (deterministic greedy; strength 2 in the "
                  "quick tier, strength 3 plus every on/off subset of the components in the thorough tier); every "
                  "chosen configuration is a complete run of the real executable under AddressSanitizer and under "
                  "valgrind memcheck",
-    "level_text": "The property quantifies over run configurations, a finite lattice of 11 568 configurations: "
+    "level_text": "The property quantifies over run configurations, a finite lattice of 208 224 configurations: "
                   "5 run modes x optional components with parameter-value variants (7 live output variants: off, "
                   "default outputs, all four outputs with ranges tight around the gas, each non-default output "
                   "alone or paired, enabled with no output, 1-bin PDFs, one output time; 3 mask settings; turbulence; "
                   "diffuse field; continuous source off / on / with zero luminosity; 6 tracker populations with "
                   "0, 1, 2, 3 and 4 trackers per cell, a tracker file with 0 trackers and a Multi-type tracker that "
                   "shares its cell; text and HDF5 tracker output with 1-4 HDF5 groups of 1-4 members; source copy "
-                  "levels 0, 1, 2; thread count of the restarted leg) x 1-2 threads x 6 grid layouts (cubic ones and "
+                  "levels 0, 1, 2; thread count of the restarted leg) x 2 capacity regimes of the task-based machinery "
+                  "(number of buffers / tasks / queue sizes generous, or tight: peak demand of the unchanged tree measured "
+                  "per demand class with an instrumented build + margin, so that the ring cursors of both pools wrap "
+                  "around onto slots that are still in use; all four values different) x 9 snapshot field selections "
+                  "(defaults, everything on, three non-contiguous per-ion selections, only one vector field, only one "
+                  "scalar field, a prefix of the ion list, no field) x 1-2 threads x 6 grid layouts (cubic ones and "
                   "layouts whose cell counts per subgrid and subgrid counts per axis are all different, descending and "
                   "ascending in x, y, z). A chosen configuration is executed to its normal end under the ASan build and "
                   "under the omp build in memcheck; exit status, expected output files and the tools' reports are "
-                  "the oracle. Thorough tier: per mode a covering array of strength 3 (every triple of factor values) "
+                  "the oracle. Thorough tier: per mode a covering array of strength 3 (every triple of factor values; the "
+                  "field selection takes part in pairs only) "
                   "that also contains every on/off subset of the components with every mode and thread count and with "
-                  "every mode and grid layout, both tools (970 configurations). Quick tier: both tools on a strength-2 array of the four RHD modes with the mode as a "
+                  "every mode and grid layout, both tools (1 082 configurations). Quick tier: both tools on a strength-2 array of the four RHD modes with the mode as a "
                   "factor (plus every pair of first-version values with every mode) and on a strength-2 array of "
-                  "the photoionization mode, layouts 0-3 (88 configurations); ASan alone on a strength-2 array per mode "
-                  "over all six layouts (131 more). Nothing is searched or interleaved, so this is exploration.",
+                  "the photoionization mode, layouts 0-3, both capacity regimes, field selections defaults / everything "
+                  "on (84 configurations); ASan alone on a strength-2 array per mode "
+                  "over all six layouts and all nine field selections (277 more). Nothing is searched or interleaved, so "
+                  "this is exploration.",
     "level_note": "One default thread schedule per configuration; grids of 64 to 576 cells in 4 to 64 subgrids, "
                   "4 hydro steps, 2 photoionization iterations. Interactions of four or more specific factor values "
                   "are covered only as far as the covering arrays happen to contain them (the complete product is "
-                  "not run any more). Leak checking off. Assumption: the task-based RHD "
+                  "not run any more). The tight capacities are derived from a calibration of the unchanged tree "
+                  "(harness/C12/c12_tight_table.inc, NOTES.md); with a two-thread leg the margins are wide and the queue "
+                  "sizes are schedule-independent bounds, so the rings wrap in 70 % / 25 % of those configurations only; the "
+                  "code's default capacities (1 GB of buffers) are not run. Leak checking off. Assumption: the task-based RHD "
                   "modes require a discrete source distribution (do_simulation dereferences it unconditionally), so "
                   "'PhotonSourceDistribution: type: None' is outside the property's precondition; three such probes are "
                   "run and recorded in extra.probes_not_judged without being judged.",
